@@ -752,6 +752,8 @@ func replay(c *core.Ctx) {
 		k.bytesCase(cs.Hdr, cs.Recs, cs.Big)
 	case "ladder":
 		k.ladderCase(cs.Hdr, cs.N, cs.Big)
+	case "save-over":
+		k.saveOver(cs.Recs)
 	case "value-bytes":
 		k.valueBytesCase(cs.N, cs.NMode)
 	case "value-mesh":
